@@ -104,11 +104,15 @@ def run(ctx):
     ctx.extra["graph_depths"] = depth
     ctx.cov["exhaustive"] = True
     # ---- long random behaviours of the full model (2 accounts, all 17 setter kinds, nesting 3, any values, Seal)
-    num, dep = (500, 20) if quick else (16000, 28)
-    sim = ctx.tlc_simulate("MCJournal", "MCJournal_All.cfg", num, dep, "all", timeout=900)
-    fix_sim_labels(sim)
-    files, summ = ctx.replay("journal", sim=sim, shards=16, name="journal-sim")
-    ctx.validate("TraceJournal", "TraceJournal.cfg", files, what="simulated behaviours of the full model", timeout=3000)
+    # (every replay shard loads all simulation files of its batch, ~4 KB per state: keep batches small)
+    num, dep, batches = (500, 20, 1) if quick else (5000, 26, 2)
+    for b in range(batches):
+        sim = ctx.tlc_simulate("MCJournal", "MCJournal_All.cfg", num, dep, "all%d" % b, timeout=900, seed=ctx.seed * 10 + b)
+        fix_sim_labels(sim)
+        files, summ = ctx.replay("journal", sim=sim, shards=8, name="journal-sim%d" % b)
+        ctx.validate("TraceJournal", "TraceJournal.cfg", files, what="simulated behaviours of the full model", timeout=3000)
+        for f in __import__("glob").glob(sim):
+            __import__("os").remove(f)
     ctx.assumptions += [
         "universe: a contract account c and a user account u; 2 storage slots, 1 asset code, 1 asset id, 1 equity id, 2 profile keys; values from 3-element domains",
         "sequences are those transactions can issue: self-destruct only on a live account (opSuicide), an asset code is created once, supply/profile only of an existing asset, asset codes/candidate/votes/signers only on the user account",
